@@ -3,10 +3,12 @@
     leb <u32|i32|u64|i64> <hex>            → Driver.ReaderLeb
     read <debug> <strict> <hex> | sha1 <hex> → Driver.ReaderDump
     arr <itemSize> <length>…                 → Driver.ReaderArray
+    imm … | blocktype … | locals …          → Driver.ReaderImm
 -/
 import Driver.ReaderLeb
 import Driver.ReaderDump
 import Driver.ReaderArray
+import Driver.ReaderImm
 
 open Driver.Reader
 
@@ -19,6 +21,9 @@ def handle (line : String) : String :=
   | some r => r
   | none =>
   match arrCmd ws with
+  | some r => r
+  | none =>
+  match immCmd ws with
   | some r => r
   | none => "err unknown-command"
 
